@@ -16,13 +16,20 @@ func diFlagsString(flags enum.DIFlag) string {
 		return flags.String()
 	}
 	var ss []string
+	rest := flags
 	if flag := flags & 0x3; flag != 0 {
 		ss = append(ss, flag.String())
+		rest &^= 0x3
 	}
 	for mask := enum.DIFlagFirst; mask <= enum.DIFlagLast; mask <<= 1 {
-		if flags&mask != 0 {
+		if flags&mask != 0 && !strings.HasPrefix(mask.String(), "DIFlag(") {
 			ss = append(ss, mask.String())
+			rest &^= mask
 		}
+	}
+	if rest != 0 {
+		// Bits without a keyword are printed as an integer, as LLVM does.
+		ss = append(ss, strconv.FormatUint(uint64(rest), 10))
 	}
 	return strings.Join(ss, " | ")
 }
@@ -34,10 +41,16 @@ func dispFlagsString(flags enum.DISPFlag) string {
 		return flags.String()
 	}
 	var ss []string
+	rest := flags
 	for mask := enum.DISPFlagFirst; mask <= enum.DISPFlagLast; mask <<= 1 {
-		if flags&mask != 0 {
+		if flags&mask != 0 && !strings.HasPrefix(mask.String(), "DISPFlag(") {
 			ss = append(ss, mask.String())
+			rest &^= mask
 		}
+	}
+	if rest != 0 {
+		// Bits without a keyword are printed as an integer, as LLVM does.
+		ss = append(ss, strconv.FormatUint(uint64(rest), 10))
 	}
 	return strings.Join(ss, " | ")
 }
